@@ -96,7 +96,7 @@ class C09(Check):
         d = driver.fresh_dir()
         files = {}
         if case[0] == "cf":
-            src = refint.program(cfgen.function_program(case[2], case[1]))
+            src = refint.program(cfgen.function_program(case[2], case[1]), minparen=case[1].endswith("~min"))
             files = {"x.ms": src}
             driver.write_files(d, files)
             cwd, entry = d, "x.ms"
